@@ -23,24 +23,58 @@ import (
 )
 
 type c18Silent struct {
+	id       int
+	failing  bool // drops every connection in the handshake
 	port     int
 	mu       sync.Mutex
 	sessions int
 }
 
-func c18SilentServer(t *testing.T, signer gossh.Signer) *c18Silent {
+// one event log for all servers of the harness, ordered by one lock (spec/ThrottleTrace.tla)
+type c18Event struct {
+	Ev string `json:"ev"`
+	S  int    `json:"s"`
+}
+
+var (
+	c18LogMu  sync.Mutex
+	c18Log    []c18Event
+	c18LogOff bool
+)
+
+func c18Emit(ev string, s int) {
+	c18LogMu.Lock()
+	if !c18LogOff {
+		c18Log = append(c18Log, c18Event{ev, s})
+	}
+	c18LogMu.Unlock()
+}
+
+func c18SilentServer(t *testing.T, signer gossh.Signer, id int, failing bool) *c18Silent {
 	l, err := net.Listen("tcp", "127.0.0.1:0")
 	if err != nil {
 		t.Fatal(err)
 	}
-	s := &c18Silent{port: l.Addr().(*net.TCPAddr).Port}
-	cfg := &gossh.ServerConfig{PasswordCallback: func(gossh.ConnMetadata, []byte) (*gossh.Permissions, error) { return nil, nil }}
+	s := &c18Silent{id: id, failing: failing, port: l.Addr().(*net.TCPAddr).Port}
+	cfg := &gossh.ServerConfig{PasswordCallback: func(gossh.ConnMetadata, []byte) (*gossh.Permissions, error) {
+		time.Sleep(60 * time.Millisecond) // connections stay "being established" long enough to overlap
+		return nil, nil
+	}}
 	cfg.AddHostKey(signer)
 	go func() {
 		for {
 			conn, err := l.Accept()
 			if err != nil {
 				return
+			}
+			c18Emit("accept", s.id)
+			if s.failing {
+				go func() {
+					time.Sleep(30 * time.Millisecond)
+					c18Emit("fail", s.id)
+					conn.Close()
+				}()
+				continue
 			}
 			go func() {
 				sc, chans, reqs, err := gossh.NewServerConn(conn, cfg)
@@ -63,6 +97,9 @@ func c18SilentServer(t *testing.T, signer gossh.Signer) *c18Silent {
 					s.mu.Unlock()
 					go func() {
 						for r := range rq {
+							if r.Type == "shell" {
+								c18Emit("up", s.id)
+							}
 							if r.WantReply {
 								r.Reply(true, nil)
 							}
@@ -86,11 +123,17 @@ func c18SilentServer(t *testing.T, signer gossh.Signer) *c18Silent {
 func TestC18Throttle(t *testing.T) {
 	_, priv, _ := ed25519.GenerateKey(rand.Reader)
 	signer, _ := gossh.NewSignerFromKey(priv)
+	// more failing entries than throttle slots come first in the list, then more answering servers than slots
+	nfail := runtime.NumCPU() + 2
 	n := runtime.NumCPU() + 3
 	var servers []*c18Silent
 	var entries []string
+	for i := 0; i < nfail; i++ {
+		s := c18SilentServer(t, signer, i+1, true)
+		entries = append(entries, fmt.Sprintf("127.0.0.1:%d", s.port))
+	}
 	for i := 0; i < n; i++ {
-		s := c18SilentServer(t, signer)
+		s := c18SilentServer(t, signer, nfail+i+1, false)
 		servers = append(servers, s)
 		entries = append(entries, fmt.Sprintf("127.0.0.1:%d", s.port))
 	}
@@ -121,10 +164,18 @@ func TestC18Throttle(t *testing.T) {
 		time.Sleep(50 * time.Millisecond)
 	}
 	got := contacted()
+	if got == n {
+		time.Sleep(2500 * time.Millisecond) // one more round of dials to the failing entries (retry mode)
+	}
+	c18LogMu.Lock()
+	c18LogOff = true
+	trace := append([]c18Event{}, c18Log...)
+	c18LogMu.Unlock()
 	cancel()
 	select {
 	case <-done:
 	case <-time.After(8 * time.Second):
 	}
-	vWriteJSON(t, "VERIF_OUT", map[string]interface{}{"servers": n, "contacted": got, "capacity": runtime.NumCPU()})
+	vWriteJSON(t, "VERIF_OUT", map[string]interface{}{"servers": n, "failing": nfail, "contacted": got,
+		"capacity": runtime.NumCPU(), "trace": trace})
 }
